@@ -230,6 +230,8 @@ def _worker(job):
         n = analyse(col, prop, v, [op], order, margin)
     except C.AnalysisBroken as ex:
         return v, op, 0, col.n_ok, col.findings, str(ex)
+    except (ArithmeticError, ValueError, TypeError, KeyError, AttributeError, RecursionError) as ex:
+        return v, op, 0, col.n_ok, col.findings, "R-SERIES.deriv: interpreter error on %s/%s: %r" % (v, op, ex)
     return v, op, n, col.n_ok, col.findings, None
 
 
